@@ -524,7 +524,7 @@ func c16Codecs(r *tr.Run, rng *rand.Rand, nm int) int {
 				n++
 				// request-reply replies: result and error text
 				rm := requestreply.BackendPubsubJSONMarshaler[C16J]{}
-				for _, et := range []string{"none", c16Str(c16StrClasses[(round+1)%5], rng, rep)} {
+				for _, et := range []string{"none", c16Str(c16StrClasses[(round+1)%5], rng, rep), ""} { // (an error whose text is empty is an error)
 					var herr error
 					if et != "none" {
 						herr = errors.New(et)
